@@ -381,8 +381,8 @@ def run(ctx):
     # random deep behaviours (TLC -simulate) over the union alphabet and two themes
     # (TLC's simulator evaluates the invariants - and so exports - on every successor it generates: the number of
     #  behaviours is about num x depth x alphabet size)
-    for theme, cont, num, depth in (("cover", "doc", 10 if q else 400, 9), ("table", "common", 8 if q else 250, 8),
-                                    ("foreign", "doc", 8 if q else 250, 8), ("foreignnames", "doc", 6 if q else 250, 9)):
+    for theme, cont, num, depth in (("cover", "doc", 10 if q else 100, 9), ("table", "common", 8 if q else 60, 8),
+                                    ("foreign", "doc", 8 if q else 60, 8), ("foreignnames", "doc", 6 if q else 60, 9)):
         run_theme(ctx, theme, cont, False, depth, spec_listed, "sim-%s-%s" % (theme, cont), simulate=(num, depth))
     # transition cover (spec-derived tests, judged by TLC with snapshots)
     cjobs = cover_tests(ctx, spec_listed)
